@@ -8,8 +8,10 @@ import Mctp.Spec.Wire
 namespace Mctp
 namespace Spec
 
-/-- an accepted control request (the only inputs that are answered) -/
-def isAcceptedRequest (p : Bytes) : Bool := accept p && isControl p && isRequest p
+/-- an accepted control request (the only inputs that are answered): well-formed per C09 and long
+enough to hold the control header -/
+def isAcceptedRequest (p : Bytes) : Bool :=
+  accept p && isControl p && isRequest p && decide (12 ≤ p.length)
 
 /-- C13: the EID an accepted Set Endpoint ID request with operation Set or Force assigns -/
 def assigns (p : Bytes) : Option B :=
